@@ -35,6 +35,22 @@ F20 = "C11:pal-unbound-accepted"
 F21 = "C11:asymptote-equality-accepted"
 F22 = "C11:pal-kepler-lowe-unconverged"
 
+DIM = {}
+
+
+def dim(name, n=1):
+    DIM[name] = DIM.get(name, 0) + n
+
+
+APPLICABLE_DIMS = [
+    "value_zero_or_signed_zero_argument", "value_int_argument", "value_none_for_absent_argument", "value_inf_argument",
+    "G_not_1", "explicit_G_free_particle", "units_set", "primary_default_com", "primary_as_index", "primary_as_hash_string",
+    "primary_as_particle", "N_active_lt_N", "massive_test_particle", "zero_mass_active_body", "jacobi_masses",
+    "variational_particles_present", "hash_int", "hash_string", "readback_orbits_jacobi", "readback_orbits_heliocentric",
+    "readback_orbits_jacobi_masses", "readback_particle_orbit_default", "readback_particle_orbit_primary", "readback_T_with_t_nonzero",
+    "near_pericentre_1e-9_1e-4", "near_apocentre_1e-9_1e-4", "retrograde_planar", "angle_gt_2pi", "angle_negative", "M_lt_minus_2pi",
+    "a_decades", "primary_offset_and_moving", "hyperbolic"]
+
 PY_ERR = [("cannot mix Pal", 7), ("cartesian coordinates and orbital elements", 8),
           ("Need to specify simulation", 9), ("either a semimajor axis or orbital period to initialize", 10),
           ("but not both", 11), ("squared sum exceeds 4", 12), ("both omega and pomega", 13),
@@ -305,10 +321,15 @@ def run(c):
         k = rng.randint(0, 4)
         return [1 + 10 ** rng.uniform(-12, -1), rng.uniform(1, 3), 10 ** rng.uniform(0, 4), nextafter(1.0, rng.randint(1, 3)), 2.0][k]
 
+    def near(x0):
+        """within 1e-9 .. 1e-4 rad of x0 (pericentre / apocentre passages)"""
+        return x0 + rng.choice([1, -1]) * 10 ** rng.uniform(-9, -4)
+
     def rand_M():
-        k = rng.randint(0, 7)
+        k = rng.randint(0, 10)
         return [0.0, PI, -PI, rng.uniform(-10, 10), 2 * PI * rng.randint(-20, 20), rng.uniform(-1, 1) * 10 ** rng.uniform(-18, 12),
-                nextafter(PI * rng.randint(-4, 4), rng.randint(-2, 2)), rng.uniform(0, 2 * PI)][k]
+                nextafter(PI * rng.randint(-4, 4), rng.randint(-2, 2)), rng.uniform(0, 2 * PI),
+                near(0.0), near(PI), -rng.uniform(2 * PI, 50)][k]
 
     worst = {}
 
@@ -330,6 +351,14 @@ def run(c):
         E2 = rng.uniform(-8, 8) if not hyp else rng.uniform(-20, 20)
         if rng.chance(0.1):
             E2 = rng.choice([0.0, PI, -PI, 2 * PI])
+        elif rng.chance(0.25):
+            E2 = near(0.0) if (hyp or rng.chance(0.5)) else near(PI * rng.choice([1, -1, 3]))
+        if abs(math.remainder(E2, 2 * PI)) < 2e-4 and E2 != 0:
+            dim("near_pericentre_1e-9_1e-4")
+        if abs(abs(math.remainder(E2, 2 * PI)) - PI) < 2e-4 and abs(math.remainder(E2, 2 * PI)) != PI:
+            dim("near_apocentre_1e-9_1e-4")
+        if M < -2 * PI:
+            dim("M_lt_minus_2pi")
         add("e2f %s %s" % (d2h(e), d2h(E2)), [d2h(clib.reb_E_to_f(D(e), D(E2)))], "e2f", (e, E2))
         c.count(("kepler", hyp, M == 0, abs(M) > 100, e > 0.8))
         kep_hist["hyp" if hyp else "ell"] = kep_hist.get("hyp" if hyp else "ell", 0) + 1
@@ -371,9 +400,14 @@ def run(c):
         return [rng.normal() * s for _ in range(3)] + [rng.normal() * 0.3 for _ in range(3)] + [10 ** rng.uniform(-3, 3)]
 
     def rand_angle():
-        k = rng.randint(0, 6)
-        return [0.0, rng.uniform(0, 2 * PI), rng.uniform(-20, 20), 2 * PI * rng.randint(-3, 3), PI * rng.randint(-3, 3) / 2,
-                rng.uniform(-1e-7, 1e-7), PI][k]
+        k = rng.randint(0, 9)
+        x = [0.0, rng.uniform(0, 2 * PI), rng.uniform(-20, 20), 2 * PI * rng.randint(-3, 3), PI * rng.randint(-3, 3) / 2,
+             rng.uniform(-1e-7, 1e-7), PI, near(0.0), near(PI), rng.uniform(2 * PI, 400) * rng.choice([1, -1])][k]
+        if x > 2 * PI:
+            dim("angle_gt_2pi")
+        if x < 0:
+            dim("angle_negative")
+        return x
 
     def rand_inc():
         k = rng.randint(0, 7)
@@ -387,12 +421,12 @@ def run(c):
         pr = rand_primary()
         m = rng.choice([0.0, 10 ** rng.uniform(-12, 0) * pr[6]])
         if kind == "ell":
-            a = 10 ** rng.uniform(-4, 4)
+            a = 10 ** rng.uniform(-6, 6)
             e = rng.choice([0.0, rng.uniform(0, 0.99), 10 ** rng.uniform(-12, -5), 1 - 10 ** rng.uniform(-6, -1), rng.uniform(0, 0.5),
                             10 ** rng.uniform(-9.5, -8.05)])
             f = rand_angle()
         else:
-            a = -10 ** rng.uniform(-4, 4)
+            a = -10 ** rng.uniform(-6, 6)
             e = rng.choice([1 + 10 ** rng.uniform(-6, 0), rng.uniform(1.01, 5), 10 ** rng.uniform(0.1, 3)])
             fmax = math.acos(-1 / e)
             f = rng.choice([0.0, rng.uniform(-0.95, 0.95) * fmax, rng.uniform(-0.999999, 0.999999) * fmax, 2 * PI * rng.randint(-2, 2)])
@@ -410,6 +444,21 @@ def run(c):
         exp = ["E%d" % err] if err else [d2h(v) for v in pvals(p)]
         add("fo %s %s %s" % (d2h(G), phex(pr), phex([m, a, e, inc, Om, om, f])), exp, "fo", dict(G=G, primary=pr, m=m, a=a, e=e, inc=inc, Omega=Om, omega=om, f=f, tag=tag))
         fo_hist[err] = fo_hist.get(err, 0) + 1
+        if err == 0:
+            a_decades.add(int(math.floor(math.log10(abs(a)))))
+            if inc == PI:
+                dim("retrograde_planar")
+            if e > 1:
+                dim("hyperbolic")
+            if any(pr[:6]):
+                dim("primary_offset_and_moving")
+            if G != 1.0:
+                dim("G_not_1")
+            fr = abs(math.remainder(f, 2 * PI))
+            if 0 < fr < 2e-4:
+                dim("near_pericentre_1e-9_1e-4")
+            if 0 < abs(fr - PI) < 2e-4:
+                dim("near_apocentre_1e-9_1e-4")
         c.count(("fo", tag, err, inc in (0.0, PI), e < 1e-5), nontrivial=True)
         return err, p
 
@@ -1286,6 +1335,9 @@ def python_only(c, rebound, clib, P, rng, fail):
     c.cov["python_only_arguments"] = stats
 
 
+a_decades = set()
+
+
 def roundtrips(c, rebound, clib, P, rng, fail, track, thorough, check_reader, rand_inc, rand_angle, add):
     """elements -> sim.add -> particle.orbit() -> elements, every anomaly / longitude, a or P,
     omega or pomega, bound and unbound, through the *Python* objects."""
@@ -1298,7 +1350,8 @@ def roundtrips(c, rebound, clib, P, rng, fail, track, thorough, check_reader, ra
         sim.add(m=rng.choice([1.0, 0.3]))
         hyp = rng.chance(0.3)
         e = rng.choice([rng.uniform(1.05, 4), 1 + 10 ** rng.uniform(-4, -1)]) if hyp else rng.choice([0.0, rng.uniform(0, 0.95), 10 ** rng.uniform(-9, -3), rng.uniform(0, 0.3)])
-        a = -10 ** rng.uniform(-2, 2) if hyp else 10 ** rng.uniform(-2, 2)
+        a = -10 ** rng.uniform(-6, 6) if hyp else 10 ** rng.uniform(-6, 6)
+        a_decades.add(int(math.floor(math.log10(abs(a)))))
         inc = rand_inc()
         Om = rand_angle()
         kw = dict(m=rng.choice([0.0, 1e-3]), e=e, inc=inc, Omega=Om)
